@@ -340,8 +340,8 @@ def rename(self, old: str, new: str):
         m.msgs = []
         return created
     for p in _parents(new):
-        if p not in self.mboxes:
-            raise Refused(("NO", "BAD"), "parent of destination does not exist")
+        if p not in self.mboxes and p.upper() != "INBOX":
+            self.mboxes[p] = Mbox(p)  # superior names are created, as for CREATE (RFC 3501 6.3.5)
     moved = []
     for n in [old] + _children(self, old):
         mb = self.mboxes.pop(n)
